@@ -378,7 +378,7 @@ func init() {
 				var jobs []Job
 				for role := 0; role <= 1; role++ {
 					for kind := 0; kind < 8; kind++ {
-						for dmg := 0; dmg < 8; dmg++ {
+						for dmg := 0; dmg < 10; dmg++ {
 							for fill := 0; fill <= 1; fill++ {
 								if kind == 0 && dmg == 0 {
 									if role == 0 {
@@ -418,12 +418,16 @@ func init() {
 				for role := 0; role <= 1; role++ {
 					for pre := 0; pre <= 1; pre++ {
 						for kind := 0; kind <= 4; kind++ {
-							for dmg := 0; dmg < 8; dmg++ {
+							for dmg := 0; dmg < 10; dmg++ {
 								for extra := 0; extra <= 1; extra++ {
 									if extra == 1 && dmg != 0 {
 										continue
 									}
 									jobs = append(jobs, J(sessPkg, "H_C16_reject", role, pre, kind, dmg, 1+(kind+dmg)%2, extra, 0, 0, 0, kind%2))
+									if kind == 0 && (dmg == 0 || dmg == 1) {
+										// Logon carrying ResetSeqNumFlag=Y
+										jobs = append(jobs, J(sessPkg, "H_C16_reject", role, pre, kind, dmg, 1+(kind+dmg)%2, extra, 0, 0, 0, 2))
+									}
 								}
 							}
 						}
